@@ -105,7 +105,11 @@ def compile_router(m, version, fp=None):
     diff.reset_pyteal_state()
     try:
         r = pt.Router("c09")
-        r.add_method_handler(make_handler(pt, m), overriding_name=m.get("override"), method_config=pt.MethodConfig(no_op=pt.CallConfig.CALL))
+        h = make_handler(pt, m)
+        r.add_method_handler(h, overriding_name=m.get("override"), method_config=pt.MethodConfig(no_op=pt.CallConfig.CALL))
+        if m.get("alias"):
+            # the same handler object registered a second time under another name
+            r.add_method_handler(h, overriding_name=m["alias"], method_config=pt.MethodConfig(no_op=pt.CallConfig.CALL))
         # a second, unrelated method so that dispatch is not trivial
         g = {"pt": pt, "Expr": pt.Expr}
         exec(compile("def other() -> Expr:\n    return pt.Log(pt.Bytes(b'OTHER'))\n", "<c09>", "exec", dont_inherit=True), g)
@@ -250,8 +254,9 @@ def run_case(case, col=None):
         prog = tp.parse(approval)
         # contract description
         sigs = sorted(x.get_signature() for x in contract.methods)
-        if sigs != sorted([sig_of(m), "other()void"]):
-            out.append(("contract-methods", "cfg=%s: contract lists %s, registered %s" % (cfg, sigs, sorted([sig_of(m), "other()void"]))))
+        reg = [sig_of(m), "other()void"] + ([sig_of(dict(m, override=m["alias"]))] if m.get("alias") else [])
+        if sigs != sorted(reg):
+            out.append(("contract-methods", "cfg=%s: contract lists %s, registered %s" % (cfg, sigs, sorted(reg))))
             break
         lits = sorted(bytes(i.const).hex() for i in prog.instrs if i.op == "method")
         sels = sorted(x.get_selector().hex() for x in contract.methods)
@@ -313,6 +318,8 @@ def shrinks(case):
         yield dict(case, method={k: v for k, v in m.items() if k not in ("ret", "ret_from", "ret_value")})
     if m.get("override"):
         yield dict(case, method={k: v for k, v in m.items() if k != "override"})
+    if m.get("alias"):
+        yield dict(case, method={k: v for k, v in m.items() if k != "alias"})
 
 
 SMALL = [["uint", 64], ["uint", 8], ["uint", 16], ["uint", 32], ["bool"], ["byte"], ["address"], ["string"], ["dbytes"], ["sbytes", 4],
@@ -346,6 +353,8 @@ def case_strategy(draw, tier):
     m = {"name": "meth", "params": params}
     if draw(st.integers(0, 5)) == 0:
         m["override"] = draw(st.sampled_from(["renamed", "do_it", "x"]))
+    if draw(st.integers(0, 5)) == 0:
+        m["alias"] = draw(st.sampled_from(["alias_a", "send", "y"]))
     if draw(st.integers(0, 2)) > 0:
         abi_i = [i for i, p in enumerate(params) if p["k"] == "abi"]
         if abi_i and draw(st.booleans()):
